@@ -1,0 +1,30 @@
+//go:build verif
+
+package apk
+
+// Second hook file for the C08 verification harness (build tag verif only).
+
+// VerifResolverPrototypeBuiltFrom looks the given index list up in the trie of
+// the process-wide resolver cache (resolverCache.find on the list as given) and
+// reports whether a prototype is stored under it and, if so, the index list that
+// prototype was built from, as positions in `universe` (-1 for an index that
+// is not an element of universe).
+func VerifResolverPrototypeBuiltFrom(indexes []NamedIndex, universe []NamedIndex) (found bool, builtFrom []int) {
+	globalResolverCache.Lock()
+	defer globalResolverCache.Unlock()
+	pr := globalResolverCache.find(indexes)
+	if pr == nil {
+		return false, nil
+	}
+	builtFrom = make([]int, len(pr.indexes))
+	for i, idx := range pr.indexes {
+		builtFrom[i] = -1
+		for j, u := range universe {
+			if u == idx {
+				builtFrom[i] = j
+				break
+			}
+		}
+	}
+	return true, builtFrom
+}
